@@ -12,6 +12,7 @@ package main
 
 import (
 	"fmt"
+	"os"
 	"strconv"
 	"strings"
 	"time"
@@ -772,6 +773,18 @@ func exhaustive(r *vh.Rng, out *vh.Out) {
 
 func main() {
 	mode, tier, path := vh.Args()
+	// self-test of the tie: the yield points must be present in streams.go, in the expected order
+	var seen []int
+	gocql.VerifStreamsSetYield(func(k int) { seen = append(seen, k) })
+	g0 := gocql.VerifStreamsNew(2)
+	id0, _ := g0.GetStream()
+	g0.Clear(id0)
+	g0.Available()
+	if fmt.Sprint(seen) != "[1 2 4 5 7 8 9 11 12]" {
+		fmt.Fprintf(os.Stderr, "c08: the verification yield points yield(1..12) of internal/streams/streams.go are missing or changed "+
+			"(sequential GetStream/Clear/Available passed %v, want [1 2 4 5 7 8 9 11 12]); apply harness/cmd/c08/hooks/streams_yield.patch\n", seen)
+		os.Exit(3)
+	}
 	gocql.VerifStreamsSetYield(hook)
 	if mode == "replay" {
 		for _, l := range vh.ReadLines(path) {
